@@ -3,7 +3,6 @@ use std::sync::Arc;
 use ckb_network::{CKBProtocolContext, PeerIndex};
 use ckb_types::{core::BlockNumber, packed, prelude::*};
 use log::trace;
-use rand::seq::SliceRandom as _;
 
 use crate::protocols::{FilterProtocol, Status, StatusCode};
 
@@ -143,7 +142,16 @@ impl<'a> BlockFilterHashesProcess<'a> {
                 }
             };
             let end_number = start_number + block_filter_hashes.len() as BlockNumber - 1;
-            if end_number > next_cached_check_point_number {
+            // Block filter hashes between two check points could only be verified by the next
+            // check point, so they are not cached before they reach it.
+            if end_number < next_cached_check_point_number {
+                let errmsg = format!(
+                    "block filter hashes end at {} but the next check point is {}",
+                    end_number, next_cached_check_point_number
+                );
+                return StatusCode::Ignore.with_context(errmsg);
+            }
+            {
                 let diff = end_number - next_cached_check_point_number;
                 let index = block_filter_hashes.len() - (diff as usize) - 1;
                 let new_hash = &block_filter_hashes[index];
@@ -188,33 +196,9 @@ impl<'a> BlockFilterHashesProcess<'a> {
                 .peers
                 .update_cached_block_filter_hashes(new_cached_hashes);
 
-            if end_number < next_cached_check_point_number {
-                let best_peers = self
-                    .protocol
-                    .peers
-                    .get_all_proved_check_points()
-                    .into_iter()
-                    .filter_map(|(peer_index, (cpindex, _check_points))| {
-                        if peer_index == self.peer_index {
-                            None
-                        } else if cpindex >= finalized_check_point_index {
-                            Some(peer_index)
-                        } else {
-                            None
-                        }
-                    })
-                    .collect::<Vec<_>>();
-                let best_peer = best_peers
-                    .choose(&mut rand::thread_rng())
-                    .cloned()
-                    .unwrap_or(self.peer_index);
-                self.protocol
-                    .send_get_block_filter_hashes(self.nc, best_peer, end_number + 1);
-            } else {
-                // if couldn't request more block filter hashes,
-                // check if could request more block filters.
-                self.protocol.try_send_get_block_filters(self.nc, true);
-            }
+            // All block filter hashes up to the next check point are cached,
+            // check if could request more block filters.
+            self.protocol.try_send_get_block_filters(self.nc, true);
         } else if start_number > finalized_check_point_number {
             let next_start_number_opt =
                 return_if_failed!(self.protocol.peers.update_latest_block_filter_hashes(
